@@ -109,21 +109,28 @@ struct Obs {
 // compares the etl trace with the std trace; returns true when identical
 inline bool compare(Obs const& e, Obs const& s)
 {
-    bool ok = true;
-    if (e.n != s.n) {
-        // the two worlds run the same source text: a length mismatch is a harness error, make it loud
-        vf::record("inconclusive", "trace-length", vf::to_s(e.n).c_str(), vf::to_s(s.n).c_str());
-        return false;
-    }
-    for (unsigned k = 0; k < s.n; ++k) {
+    bool ok    = true;
+    unsigned n = e.n < s.n ? e.n : s.n;
+    for (unsigned k = 0; k < n; ++k) {
+        if (s.it[k].name != e.it[k].name && std::strcmp(s.it[k].name, e.it[k].name) != 0) {
+            vf::diverge("trace-shape", e.it[k].name, s.it[k].name); // the two libraries took different observation paths
+            return false;
+        }
         if (s.it[k].kind == Obs::kBool) {
             ok &= vf::eq_bool(s.it[k].name, e.it[k].v != 0, s.it[k].v != 0);
         } else {
             ok &= vf::eq_int(s.it[k].name, e.it[k].v, s.it[k].v);
         }
     }
+    if (e.n != s.n) {
+        // every helper emits a fixed shape (absent values are written as kAbsent), so this cannot happen unless an
+        // operation is compiled differently for the two libraries: report it as a divergence, never swallow it
+        vf::diverge("trace-shape", vf::to_s(e.n), vf::to_s(s.n));
+        ok = false;
+    }
     return ok;
 }
+constexpr long long kAbsent = -1000; // "no value to read" (empty optional, inactive alternative, other arm of expected)
 
 // value category of the argument a callable / visitor received
 template <typename A>
